@@ -185,18 +185,28 @@ def clear_typelib_caches():
     return len(_CACHES)
 
 
-class Deadline(Exception):
-    """A call into the library under test did not return in time (treated as an observation, not a crash)."""
+class Deadline(BaseException):
+    """A call into the library under test did not return in time (treated as an observation, not a crash).
+    BaseException, and re-armed every second, so that a broad `except Exception` inside a loop cannot swallow it."""
+
+
+HANGS = [0]
+MAX_HANGS = 12
 
 
 def with_deadline(seconds, fn, *a, **kw):
-    """Run fn under a wall-clock alarm; pure-Python non-termination surfaces as Deadline."""
+    """Run fn under a wall-clock alarm; pure-Python non-termination surfaces as Deadline.
+    After MAX_HANGS hangs in one run further calls are not attempted (each would cost the full
+    deadline): they are reported as Deadline immediately -- the run is failing already."""
     import signal
+    if HANGS[0] >= MAX_HANGS:
+        raise Deadline("skipped: too many hangs in this run")
 
     def _alarm(signum, frame):
+        HANGS[0] += 1
         raise Deadline(f"no result after {seconds}s")
     old = signal.signal(signal.SIGALRM, _alarm)
-    signal.setitimer(signal.ITIMER_REAL, seconds)
+    signal.setitimer(signal.ITIMER_REAL, seconds, 1.0)
     try:
         return fn(*a, **kw)
     finally:
